@@ -60,7 +60,8 @@ def _setup(case: dict, n_traj: int = 1):
     seq = seqs.build_sequence(spec)
     nm = noise_model(case["noise"])
     times = [0.25, 0.5, 0.75, 1.0]
-    cfg = MPSConfig(dt=case["dt"], log_level=100, noise_model=nm, observables=make_observables([{"k": "occupation", "times": times}, {"k": "correlation_matrix", "times": times}, {"k": "state", "times": times}]),
+    cfg = MPSConfig(dt=case["dt"], log_level=100, noise_model=nm, observables=make_observables([{"k": "occupation", "times": times}, {"k": "correlation_matrix", "times": times}, {"k": "state", "times": times},
+                                                  {"k": "energy", "times": times}, {"k": "energy_variance", "times": times}]),
                     optimize_qubit_ordering=False, precision=1e-6, n_trajectories=n_traj)
     pd = PulserData(sequence=seq, config=cfg, dt=case["dt"])
     if n_traj > 1:
@@ -97,6 +98,11 @@ def traj_worker(job: dict) -> dict:
                 cor = np.array([np.real(np.asarray(v.detach().numpy() if hasattr(v, "detach") else v)) for v in res.correlation_matrix])
                 rng_ok = bool((occ >= -1e-9).all() and (occ <= 1 + 1e-9).all() and (cor >= -1e-9).all() and (cor <= 1 + 1e-9).all())
                 norms = [float(st.norm()) for st in res.state]
+                # energy-type observables of a trajectory are those of a Hermitian Hamiltonian on a normalised state: real variance >= 0
+                ev_ = [float(np.real(x)) for x in res.energy_variance]
+                en_ = [float(np.real(x)) for x in res.energy]
+                escale = 1.0 + max(abs(x) for x in en_) ** 2
+                rng_ok = rng_ok and all(v_ >= -1e-7 * escale for v_ in ev_) and all(np.isfinite(en_)) and all(np.isfinite(ev_))
                 out["norm_ok"].append(bool(all(abs(x - 1.0) <= 1e-8 for x in norms)))
                 out["occ"].append(occ.tolist())
                 out["ok_range"].append(rng_ok)
